@@ -56,11 +56,20 @@ def translate_source():
     out = os.path.join(LEAN, 'UbxModel', 'Gen', 'Src.lean')
     try:
         r = sh([PY, os.path.join(ROOT, 'tools', 'pysrc2lean.py'), REPO, out], timeout=120)
-        return json.loads(r.stdout.strip().splitlines()[-1])
+        status = json.loads(r.stdout.strip().splitlines()[-1])
     except Exception as e:
         # keep the library buildable: an empty translation
         open(out, 'w').write('/-! source-level translation failed on this tree -/\n')
-        return {c: 'untranslatable: translator failed (' + type(e).__name__ + ')' for c in ('Checksum', 'UbxParser', 'NmeaParser', 'UbxFrame', 'CfgKeyData')}
+        status = {c: 'untranslatable: translator failed (' + type(e).__name__ + ')' for c in ('Checksum', 'UbxParser', 'NmeaParser', 'UbxFrame', 'CfgKeyData')}
+    # the request loop (server_base.py) has a translator and an output file of its own
+    out2 = os.path.join(LEAN, 'UbxModel', 'Gen', 'SrcServer.lean')
+    try:
+        r = sh([PY, os.path.join(ROOT, 'tools', 'pysrc2lean_server.py'), REPO, out2], timeout=120)
+        status['Server'] = r.stdout.strip().splitlines()[-1]
+    except Exception as e:
+        open(out2, 'w').write('/-! source-level translation of server_base.py failed on this tree -/\n')
+        status['Server'] = 'untranslatable: translator failed (' + type(e).__name__ + ')'
+    return status
 
 
 SRC_THEOREMS = {
@@ -69,6 +78,8 @@ SRC_THEOREMS = {
     'UbxParser': ['ubx_reset', 'ubx_step', 'ubx_process', 'ubx_restart', 'ubx_empty_queue', 'ubx_set_filter', 'ubx_set_filters'],
     'NmeaParser': ['nmea_to_bin', 'nmea_step', 'nmea_process', 'nmea_restart'],
     'CfgKeyData': ['key_bits', 'key_group', 'key_item', 'key_bytes', 'key_header'],
+    'Server': ['srv_check_poll', 'srv_check_ack_nak', 'srv_check_mga', 'srv_send', 'srv_wait', 'srv_set', 'srv_set_mga',
+               'srv_set_mga_other_class', 'srv_fire_and_forget', 'srv_set_retries', 'srv_set_retry_delay', 'srv_poll'],
 }
 
 
@@ -76,6 +87,8 @@ TRANSFERS = {   # module -> (classes it needs, theorems)
     'TransferFrame': (['Checksum', 'UbxFrame'], ['src_to_bytes_is_wire', 'src_checksum_is_fletcher']),
     'TransferUbx': (['UbxParser', 'Checksum'], ['src_process_chunks', 'src_parser_refines_scanner']),
     'TransferNmea': (['NmeaParser'], ['src_nmea_counts_exactly']),
+    'TransferServer': (['Server', 'UbxParser'], ['src_set_returns_bounded', 'src_set_mga_returns_bounded', 'src_poll_returns_bounded', 'src_set_result',
+                                                 'src_poll_result', 'src_set_kth', 'src_set_like_fresh', 'src_poll_like_fresh', 'src_poll_all_same']),
 }
 
 
